@@ -55,6 +55,31 @@ pub fn skip_node(vt: &VT, shape: &Shape, x: &[u8]) -> Result<(&'static str, bool
 		(Ok(dv), Err(e)) => return Err(format!("skip fails ({}) where decode succeeds consuming {}", e, dv.consumed)),
 		(Err(e), Ok(n)) => return Err(format!("skip succeeds (advancing {}) where decode fails ({})", n, e)),
 	};
+	// the same through an input of unknown length and through IoReader
+	{
+		let mut n = subjects::inputs::NoLen::new(x);
+		let ok = guarded(|| (vt.skip_dyn)(&mut n)).map_err(|p| format!("skip (unknown-length input) panicked: {}", p))?;
+		match (&d, ok) {
+			(Ok(dv), true) =>
+				if n.pos != dv.consumed {
+					return Err(format!("skip over an unknown-length input advances {} bytes, decode {}", n.pos, dv.consumed));
+				},
+			(Err(_), false) => {},
+			(Ok(_), false) => return Err("skip over an unknown-length input fails where decode succeeds".into()),
+			(Err(e), true) => return Err(format!("skip over an unknown-length input succeeds where decode fails ({})", e)),
+		}
+		let mut c = std::io::Cursor::new(x);
+		let ok = guarded(|| (vt.skip_io)(&mut c)).map_err(|p| format!("skip (IoReader) panicked: {}", p))?;
+		match (&d, ok) {
+			(Ok(dv), true) =>
+				if c.position() as usize != dv.consumed {
+					return Err(format!("skip through IoReader advances {} bytes, decode {}", c.position(), dv.consumed));
+				},
+			(Err(_), false) => {},
+			(Ok(_), false) => return Err("skip through IoReader fails where decode succeeds".into()),
+			(Err(e), true) => return Err(format!("skip through IoReader succeeds where decode fails ({})", e)),
+		}
+	}
 	Ok((class, c03::open_node(vt, shape, x)))
 }
 
